@@ -480,6 +480,11 @@ class Harness:
         if u["condS"] > GUARD_COND or not np.all(np.isfinite(u["S"])):
             res.truncated = "guard:cond_S"
             return None
+        if P_in.size and float(np.linalg.norm(u["H"], 2)) ** 2 * float(np.linalg.norm(P_in, 2)) > 1e4 * float(np.max(np.abs(u["S"]))):
+            # S = H P H^T + Q is the small difference of huge terms (steep sensor model on a near-singular covariance):
+            # not a well-conditioned update, two correct implementations differ by far more than rounding of the result
+            res.truncated = "guard:cancellation_in_S"
+            return None
         m = u["m"]
         res.stats["update"] += 1
         if m > 1:
